@@ -624,7 +624,7 @@ fn main() {
         }
         {
             let mut s = sample_hist.lock().unwrap();
-            for h in stats.sample_histories.iter().take(2) {
+            for h in stats.sample_histories.iter().rev().take(2) {
                 s.push(json!({"capacity": cap, "presented": h.iter().map(|&i| alpha[i].0).collect::<Vec<_>>()}));
             }
         }
@@ -726,6 +726,7 @@ fn main() {
             "verify_signature is a pure function of the record: its verdict per alphabet record is computed once (three agreeing calls) and used as the differential reference at every presentation".into(),
             "capacity 1 and capacity >= alphabet: states merged on the observable one-step probe vector and searched to a fix-point (all history lengths); capacities 2, 3: eviction victim is HashMap order, histories are not merged and absence of failures is claimed only for the histories run".into(),
             "name None <-> Some(\"\") (identical encodings, Some(\"\") refused by the constructor) is not in the mutation alphabet; empty names and names of <= 255 characters but > 255 bytes are not judged in the bounds grid".into(),
+            "capacities 2 and 3: which entry is evicted varies from run to run (std HashMap order), so occurrence counts of a signature may differ between runs; the set of signatures and every verdict for capacities 1 and >= 9 do not".into(),
             "bit-level family: flips that yield a non-UTF-8 name or endpoint bytes that do not decode canonically cannot be presented as a record and are counted, not judged".into(),
         ],
     );
